@@ -19,7 +19,7 @@ def own_reports(rng):
     if k == 0:
         return ""
     out = ""
-    names = rng.sample(["aaa", "zzz", "plan_auto_0", "Report One", "my.rep"], k)
+    names = rng.sample(["aaa", "zzz", "plan_auto_0", "Report One", "my.rep", "reports/overview", "out/deep/er"], k)
     for i, nm in enumerate(names):
         fm = rng.choice(["json", "csv", "json, csv"])
         out += f'taskreport own{i} "{nm}" {{ formats {fm} columns name, id, priority }}\n'
